@@ -11,6 +11,7 @@
   the minimiser hypotheses), the draws are inputs.
 -/
 import XpModel.Lime
+import XpProofs.Lemmas.SqDist
 import XpModel.LinReg
 import XpProofs.Lemmas.Batching
 import XpProofs.Lemmas.Vec
@@ -281,6 +282,23 @@ theorem kshap_model_efficiency (cfg : Cfg) (wt : List ℚ) (c0 : ℚ) (x : List 
   rw [h2]; ring
 
 /-! ### the cosine kernel: documented distance and regression witness -/
+
+/-! ### translation invariance of the Euclidean kernel (large-offset family of the correspondence check) -/
+
+/-- a common offset of the input and of the masked input changes no squared Euclidean distance ... -/
+theorem lime_sqdist_translation (a b : List Rat) (c : Rat) :
+    sqDist (a.map (· + c)) (b.map (· + c)) = sqDist a b := sqDist_translation a b c
+
+/-- ... hence no kernel weight -/
+theorem lime_weight_translation (κ : Rat → Rat) (width : Rat) (a b : List Rat) (c : Rat) :
+    weightOf κ width (sqDist (a.map (· + c)) (b.map (· + c))) = weightOf κ width (sqDist a b) := by
+  rw [sqDist_translation]
+
+/-- over the rationals the expanded form `‖a‖² − 2⟨a,b⟩ + ‖b‖²` IS the squared distance: a float32 implementation that uses it
+    differs from the documented kernel by rounding only - which is unbounded relative to `D²` when `a` and `b` share a large
+    offset (the reason for the large-offset family of the correspondence check) -/
+theorem lime_sqdist_expansion (a b : List Rat) (h : a.length = b.length) :
+    sqDist a b = sqNorm a - 2 * dot a b + sqNorm b := sqDist_expansion a b h
 
 /-- with the DOCUMENTED distance `1 − cos` a masked input equal to the (non-zero) input has
     distance 0, hence weight `κ 0` (= 1 for `κ = exp(−·)`) -/
